@@ -13,6 +13,8 @@ def ctc_same(a, node):
     got = M.describe_node(node)
 
     def eq(x, y):
+        if isinstance(x, tuple) and x and x[0] == 'ref':
+            return '.'.join(x[1:]) == y         # a dotted reference denotes the dotted name
         if isinstance(x, list) and isinstance(y, list):
             return len(x) == len(y) and all(eq(p, q) for p, q in zip(x, y))
         if isinstance(x, (int, float)) and isinstance(y, (int, float)) and not isinstance(x, bool):
@@ -69,7 +71,7 @@ def main():
         except Exception as e:  # noqa: BLE001
             ok, why = False, f'{type(e).__name__}: {str(e)[:100]}'
         run.case('document with comment-only lines is read', f'c{k}', ok, why, {'document': text}, known='C04_comment_line')
-    for kind in ('bracket', 'operator', 'keyword', 'indent'):
+    for kind in ('bracket', 'operator', 'keyword', 'indent', 'lexical'):
         for k in range(25 if quick else 300):
             desc, text = emit_uvl(rng, invalid=kind)
             p = os.path.join(tmp, f'bad{kind}{k}.uvl')
@@ -83,7 +85,7 @@ def main():
     run.finish('documents from the independent UVL emitter (quoted / bare identifiers incl. keywords, non-ASCII, leading digits; typed features; '
                'feature and group cardinalities [n], [n..m], [n..*]; abstract markers; attribute values bool/int/float/str/list/nested map; several '
                'children per group keyword; redundant parentheses; comments; namespace / imports / include headers; logical, comparison, '
-               'arithmetic and aggregate constraints); 4 kinds of constructed syntax errors')
+               'arithmetic and aggregate constraints); 5 kinds of constructed syntax errors (the fifth: a character or token the lexer does not know)')
 
 
 if __name__ == '__main__':
